@@ -595,6 +595,11 @@ impl Name {
             return Ok(name);
         }
 
+        // a free standing @ denotes the current origin, RFC 1035 section 5.1
+        if let ("@", Some(origin)) = (local, origin) {
+            return Ok(origin.clone());
+        }
+
         // TODO: it would be nice to relocate this to Label, but that is hard because the label boundary can only be detected after processing escapes...
         // evaluate all characters
         for ch in local.chars() {
